@@ -123,6 +123,10 @@ class C15(common.Spec):
                 elif how == 'ifnotinit':
                     f = edzed.NotIfInitialized(n)
                     named_objs.append(('filter', f))
+                elif how == 'extevent':
+                    # an external event's destination given by name: looked up (and its kind checked)
+                    # when the ExtEvent is created
+                    named_objs.append(('event', edzed.ExtEvent(''.join(list(n)))))
                 else:
                     de = edzed.DataEdit.add_output('k', n)
                     named_objs.append(('dataedit', de))
@@ -184,13 +188,15 @@ class C15(common.Spec):
 
         try:
             if case['mode'] == 'finalize':
+                built = False
                 try:
                     build()
+                    built = True
                     circuit = edzed.get_circuit()
                     circuit.finalize()
                 except Exception as err:
                     obs['err'] = common.exc_enum(err)
-                    if case.get('retry'):
+                    if case.get('retry') and built:
                         # a second attempt on the same circuit must not succeed either: the
                         # references are as unknown / as wrong as before
                         try:
@@ -226,7 +232,7 @@ class C15(common.Spec):
             return "{| bd_name := %s; bd_kind := %s; bd_inputs := %s |}" % (
                 cstr(b['name']), kind, clist(b['inputs'], c_input))
         blocks = list(case['blocks']) + [dict(name='evsrc', kind='S', inputs=[])]
-        need = {'event': 'NeedS', 'ifnotinit': 'NeedS'}
+        need = {'event': 'NeedS', 'ifnotinit': 'NeedS', 'extevent': 'NeedS'}
 
         def bob(o):
             try:
@@ -327,8 +333,8 @@ def gen_case(rng, bad=False):
     snames = [nm for nm in names if kinds[nm] == 'S']
     named = []
     for _ in range(rng.choice([0, 1, 2, 3])):
-        how = rng.choice(['event', 'ifoutput', 'ifnotinit', 'add_output'])
-        if how in ('event', 'ifnotinit'):
+        how = rng.choice(['event', 'ifoutput', 'ifnotinit', 'add_output', 'extevent'])
+        if how in ('event', 'ifnotinit', 'extevent'):
             tgt = rng.choice(snames + (['_ctrl'] if how == 'event' else []))
         else:
             tgt = rng.choice(names + ['_not_' + rng.choice(names)])
@@ -340,7 +346,7 @@ def gen_case(rng, bad=False):
         kind = rng.choice(['unknown', 'foreign', 'wrongkind', 'not_unknown', 'dunder'])
         cbs = [b for b in blocks[:-1] if b['kind'] != 'S']
         if kind == 'wrongkind' and any(kinds[x] != 'S' for x in names):
-            named.append([rng.choice([x for x in names if kinds[x] != 'S']), rng.choice(['event', 'ifnotinit'])])
+            named.append([rng.choice([x for x in names if kinds[x] != 'S']), rng.choice(['event', 'ifnotinit', 'extevent'])])
         elif cbs:
             b = rng.choice(cbs)
             r = {'unknown': ['name', 'nosuch'], 'foreign': ['foreign'],
